@@ -71,6 +71,13 @@ def main(pid):
             texts = sorted({t for t, _ in U["maven"]})
             n, rej, mm = audit_pairs(run, "C12", texts, maven_driver(), 20000, rnd)
             mm = [m for m in mm if m["why"] != "audit-scope"]   # the universe deliberately exceeds the scope
+        elif pid == "C09":
+            import check_c09
+            U = vlib.universe(run, ["pypi"])
+            texts = {t for t, _ in U["pypi"]}
+            for j in check_c09.seeded(U, rnd, False)[:10]: texts |= set(j["texts"])
+            texts = sorted(texts)
+            n, rej, mm = audit_pairs(run, "C09", texts, ["python3-vt", os.path.join(vlib.VERIF, "audit", "pep440_cmp.py")], 30000, rnd)
         elif pid == "C08":
             import check_c08
             U = vlib.universe(run, ["npm"])
